@@ -210,8 +210,22 @@ void varintAdaptiveAnalyze(const uint64_t *values, size_t count,
     stats->isSorted = (sortedness == 1);
     stats->isReverseSorted = (sortedness == -1);
 
-    /* Count unique values (may be approximate for large arrays) */
-    stats->uniqueCount = varintAdaptiveCountUnique(values, count);
+    /* Count unique values (may be approximate for large arrays). Sorted
+     * input needs no scratch memory: distinct neighbours are counted
+     * directly, which is exact and cannot fail. The bitmap selection below
+     * relies on uniqueCount == count meaning "no duplicates", so it must not
+     * see the "all unique" fallback CountUnique uses when it cannot allocate. */
+    if (sortedness != 0) {
+        size_t unique = 1;
+        for (size_t i = 1; i < count; i++) {
+            if (values[i] != values[i - 1]) {
+                unique++;
+            }
+        }
+        stats->uniqueCount = unique;
+    } else {
+        stats->uniqueCount = varintAdaptiveCountUnique(values, count);
+    }
     stats->uniqueRatio = (float)stats->uniqueCount / (float)count;
 
     /* Compute delta statistics */
